@@ -6,9 +6,12 @@
 // the termination message.  The model side (runner/drv_evflow.ml) replays every actor on exactly the events it consumed and
 // requires what it sent to be what the model actor sends; and checks that what each actor consumed from each sender is a
 // prefix of what was relayed to it from that sender (per-sender FIFO — the delivery assumption of Sys.exec).
-//   case line:  V <id> <watch 0|1> <roots n,n> <targets n:K:deps[:delay_ms];...> <initially failing n,n | -> <rounds r/r/..| ->
+//   case line:  V <id> <watch 0|1> <roots n,n> <targets n:K:deps[:delay_ms];...> <initially failing n,n | -> <rounds r/r/..| -> [term_ms]
+//               term_ms (optional, >= 0): the harness sends the termination message that many milliseconds after the start,
+//               whatever is going on (cancellation of running builds)
 //               round = edits n=status.n=status (status 0|1) ; '-' = none
-//   result:     <id> status=<ok|err:n|-> E=[n@ev;...] O=[dest<-msg;...]
+//   result:     <id> status=<ok|err:n|-> consumed=<k> E=[n@ev;...] O=[dest<-msg;...]
+//               consumed = how many of the logged outputs the root loop took (forwarded or handled) before `run` returned
 use super::super::util::*;
 use super::m_flow::{fmt_out, ids, tid};
 use crate::domain::{
@@ -107,11 +110,16 @@ fn run_case(line: &str, scratch: &std::path::Path) -> String {
         let log: Arc<Mutex<Vec<String>>> = Arc::new(Mutex::new(Vec::new()));
         let log2 = log.clone();
         let a_tx2 = a_tx.clone();
+        // how many outputs were passed on to `run` (the sends that did not fail because `run` had returned)
+        let passed: Arc<Mutex<usize>> = Arc::new(Mutex::new(0));
+        let passed2 = passed.clone();
         let relay = task::spawn(async move {
             while let Ok(o) = b_rx.recv().await {
                 let mut l = log2.lock().unwrap();
                 l.push(fmt_out(&o));
-                let _ = a_tx2.try_send(o);
+                if a_tx2.try_send(o).is_ok() {
+                    *passed2.lock().unwrap() += 1;
+                }
             }
         });
         let status: Arc<Mutex<Option<String>>> = Arc::new(Mutex::new(None));
@@ -161,9 +169,14 @@ fn run_case(line: &str, scratch: &std::path::Path) -> String {
                 }
             }
         };
-        quiet(400).await;
+        let term_ms: Option<u64> = f.get(7).and_then(|x| x.parse().ok());
+        if let Some(ms) = term_ms {
+            task::sleep(Duration::from_millis(ms)).await;
+        } else {
+            quiet(400).await;
+        }
         let mut gen = 0u64;
-        if watch {
+        if watch && term_ms.is_none() {
             for round in rounds.iter() {
                 for (i, (n, st)) in round.iter().enumerate() {
                     gen += 1;
@@ -186,12 +199,14 @@ fn run_case(line: &str, scratch: &std::path::Path) -> String {
         task::sleep(Duration::from_millis(5)).await;
         drop(relay);
         let o = log.lock().unwrap().join(";");
-        format!("status={}", st.unwrap()) + " O=[" + &o + "]"
+        // passed on and not left in the (now closed) channel = taken by the root loop
+        let consumed = passed.lock().unwrap().saturating_sub(a_tx.len());
+        format!("status={}@consumed={}", st.unwrap(), consumed) + " O=[" + &o + "]"
     });
     let ev = crate::zinoma_verif::record_events(false);
     let _ = std::fs::remove_dir_all(&dir);
     let mut parts = res.splitn(2, ' ');
-    let st = parts.next().unwrap_or("");
+    let st = parts.next().unwrap_or("").replace('@', " ");
     let o = parts.next().unwrap_or("");
     format!("{} E=[{}] {}", st, ev.join(";"), o)
 }
